@@ -18,6 +18,7 @@ import Dos.Proofs.IOBasic
 import Dos.Proofs.IOPacks
 import Dos.Proofs.IORepack
 import Dos.Proofs.IOImportProofs
+import Dos.Proofs.IOPackAllOProofs
 import Dos.Proofs.ConcProofs
 import Dos.Proofs.BackupProofs
 
@@ -192,11 +193,14 @@ theorem C05_C17_nofsync_safe {t : Tab} (wf : t.WF) {tg : Nat} (htg : 0 < tg) {op
     (h : Reach t tg ops s) (hops : ∀ op ∈ ops, Op.below op) :
     (∀ cs, (∀ c ∈ cs, c < garbage) → ∀ z nh rt f, CrashFaultSafe t s (actsAddPackedO t s cs z nh rt f) (keysOf s)) ∧
     (∀ calls : List (List Nat), (∀ cs ∈ calls, ∀ c ∈ cs, c < garbage) → ∀ z nh rt f,
-        CrashFaultSafe t s (actsImport t s calls z nh rt f) (keysOf s)) := by
+        CrashFaultSafe t s (actsImport t s calls z nh rt f) (keysOf s)) ∧
+    (∀ order zs cl, (∀ k ∈ order, hasLoose s k = true ∧ hasRow s k = false) → order.Nodup → zs.length = order.length →
+        ∀ f, CrashFaultSafe t s (actsPackAllO t s order zs cl f) (keysOf s)) := by
   have inv := reach_inv wf htg h
   have hb := reach_bounded wf htg h hops
   exact ⟨fun cs hcs z nh rt f => crashfault_addPackedO wf inv hb cs hcs z nh rt f,
-    fun calls hc z nh rt f => crashfault_import wf inv hb calls hc z nh rt f⟩
+    fun calls hc z nh rt f => crashfault_import wf inv hb calls hc z nh rt f,
+    fun order zs cl ho hn hl f => crashfault_packAllO wf inv hb order zs cl ho hn hl f⟩
 
 /-! ## C10 / C11 / C14 on reachable states -/
 
